@@ -192,8 +192,9 @@ impl<N, C> Topology<N, C> {
         let src = src.into();
 
         let mut visited = Vec::new();
-        let mut queue = Vec::new();
-        queue.push(QueueElement {
+        // FIFO order: nodes are visited in order of their hop distance
+        let mut queue = std::collections::VecDeque::new();
+        queue.push_back(QueueElement {
             idx: self
                 .nodes
                 .iter()
@@ -204,7 +205,7 @@ impl<N, C> Topology<N, C> {
         });
 
         let mut mapping = FxHashMap::with_hasher(FxBuildHasher::default());
-        while let Some(cur) = queue.pop() {
+        while let Some(cur) = queue.pop_front() {
             if visited.contains(&cur.idx) {
                 continue;
             }
@@ -216,7 +217,7 @@ impl<N, C> Topology<N, C> {
 
             for edge in self.edges_by_id(cur.idx) {
                 if !visited.contains(&edge.to.id) {
-                    queue.push(QueueElement {
+                    queue.push_back(QueueElement {
                         idx: edge.to.id,
                         distance: cur.distance + 1,
                         next: Some(cur.next.clone().unwrap_or(edge)),
@@ -306,10 +307,15 @@ impl Topology<(), ()> {
     #[must_use]
     #[allow(clippy::missing_panics_doc)]
     pub fn spanned(root: ModuleRef) -> Self {
+        // All modules discovered so far, in order of discovery. The position of
+        // a module in this list is its node index in the resulting topology.
         let mut modules = vec![root];
         let mut this = Self::default();
 
-        while let Some(module) = modules.pop() {
+        let mut next = 0;
+        while next < modules.len() {
+            let module = modules[next].clone();
+            next += 1;
             let gates = module.gates();
 
             this.nodes.push(Node { data: (), module });
@@ -329,21 +335,13 @@ impl Topology<(), ()> {
                     }
 
                     let end_id = end.owner().id();
-                    let end_idx = this
-                        .nodes
+                    let end_idx = modules
                         .iter()
-                        .position(|node| node.module.id() == end_id)
+                        .position(|module| module.id() == end_id)
                         .unwrap_or_else(|| {
-                            // Node is not yet in the spanned set
-                            // but maybe allready in queue
-                            if let Some(offset) =
-                                modules.iter().position(|module| module.id() == end_id)
-                            {
-                                src_idx + 1 + offset
-                            } else {
-                                modules.push(end.owner());
-                                src_idx + modules.len()
-                            }
+                            // Node was not yet discovered
+                            modules.push(end.owner());
+                            modules.len() - 1
                         });
 
                     let raw = EdgeRaw {
